@@ -3,7 +3,8 @@
 --short: one compact line per seed (used for DESIGN.md 9.5)."""
 import glob, json, os, re, sys
 HERE = os.path.dirname(os.path.dirname(os.path.abspath(__file__)))
-short = "--short" in sys.argv
+design = "--design" in sys.argv
+short = "--short" in sys.argv or design
 rows = []
 for mp in sorted(glob.glob(os.path.join(HERE, "seeded", "*", "meta.json"))):
     m = json.load(open(mp))
@@ -21,10 +22,21 @@ for mp in sorted(glob.glob(os.path.join(HERE, "seeded", "*", "meta.json"))):
             m["name"], summ[:150], (m.get("needs_to_manifest") or "").replace("|", "/")[:150],
             "yes" if c.get("suite_passes") else "NO", "yes" if c.get("demo_discriminates") else "NO",
             times or "-", ", ".join(miss) or "-"))
+hdr = []
 if short:
-    print("| seed | change (first words of the author's summary; full text in seeded/<id>/meta.json) | suite passes / demo discriminates | detected by (quick tier, wall s) | also run, not detected by |")
-    print("|---|---|---|---|---|")
+    hdr.append("| seed | change (first words of the author's summary; full text in seeded/<id>/meta.json) | suite passes / demo discriminates | detected by (quick tier, wall s) | also run, not detected by |")
+    hdr.append("|---|---|---|---|---|")
 else:
-    print("| seed | change | needs to manifest | suite passes | demo fails/passes | detected by (quick, wall incl. rebuild) | run but not detected by |")
-    print("|---|---|---|---|---|---|---|")
-print("\n".join(rows))
+    hdr.append("| seed | change | needs to manifest | suite passes | demo fails/passes | detected by (quick, wall incl. rebuild) | run but not detected by |")
+    hdr.append("|---|---|---|---|---|---|---|")
+text = "\n".join(hdr + rows)
+if design:
+    dp = os.path.join(HERE, "DESIGN.md")
+    d = open(dp).read()
+    a = d.index("<!-- seeded-table-begin")
+    a = d.index("\n", a) + 1
+    b = d.index("<!-- seeded-table-end")
+    open(dp, "w").write(d[:a] + text + "\n" + d[b:])
+    print("DESIGN.md table updated: %d seeds" % len(rows))
+else:
+    print(text)
